@@ -24,6 +24,12 @@
    handshake.makejoin  ver remoteVers userID origin local inRoom roomID jr pending pl create rooms tmode tstate
    handshake.makeleave ver userID origin inRoom roomID tmode tstate
    handshake.invite    ver ev roomID invitedUser senderQ verify known stripped stateq cur
+   handshake.invitev3  ver roomID protoRoom protoType membership sender big known stripped stateq cur
+       the proto event handed to HandleInviteV3: type `protoType` ("-" = empty), content {"membership": <membership>} — or
+       "~missing" ({}), "~num" ({"membership":5}), "~null" ({"membership":null}), "~notobject" (content is the text 5);
+       sender ok/err = GetOrCreateSenderID; big = content padded beyond the size limit.  outcome: err:<class> |
+       ok:sig=<the invited user's room key validly signed the built event>:shape=<type, state key = invited sender ID, room,
+       membership, sender as in the proto event>:stripped=<n>.  specification stream: `Spec.inviteV3Guards`.
    handshake.performjoin … (see below)
    handshake.perform_invite, handshake.sendjoin_pseudo: see VDriver/HandshakeInvite.lean
 -/
@@ -287,7 +293,7 @@ def handle (op : String) (args : Array String) : Option String :=
       | .ok o => showSigned none o.sig ++ ":stripped=" ++ toString o.strippedLen
       | .error er => showHErr er
     some (withSpec m (Spec.inviteGuards i))
-  | "invitev3", [ver, roomID, protoRoom, _ptype, _membership, sender, big, known, stripped, stateq, cur] =>
+  | "invitev3", [ver, roomID, protoRoom, ptype, membership, sender, big, known, stripped, stateq, cur] =>
     let v := strBytes ver
     let common : InviteIn := {
       versionKnown := knownVersion v, eventRoomID := unhexD protoRoom, roomID := unhexD roomID,
@@ -299,6 +305,13 @@ def handle (op : String) (args : Array String) : Option String :=
       eventType := [], membership := none, stateKey := none }
     let i : InviteV3In := {
       common := common, protoRoomID := unhexD protoRoom,
+      protoType := if ptype == "-" then [] else strBytes ptype,
+      -- the proto event's content: {"membership": <string>} | "~missing" {} | "~num" {"membership":5} | "~null" {"membership":null}
+      -- | "~notobject" (the content is the JSON text 5)
+      protoMembership :=
+        if membership == "~missing" || membership == "~null" then some []
+        else if membership == "~num" || membership == "~notobject" then none
+        else some (strBytes membership),
       invitedSenderID := if sender == "err" then none else some b!"invitee-room-key",
       -- Build succeeds exactly for the pseudo-ID version (elsewhere the sender, a bare key, fails the
       -- user-ID field check) and for events within the size limit
@@ -306,7 +319,9 @@ def handle (op : String) (args : Array String) : Option String :=
     let m := match handleInviteV3 i with
       | .ok o => "ok:sig=1:shape=1:stripped=" ++ toString o.strippedLen
       | .error er => showHErr er
-    some m
+    -- specification stream: a proto event that is not an invite (for the room of the request, for a user not already
+    -- joined) must be refused
+    some (withSpec m (Spec.inviteV3Guards i))
   | "performjoin", [ver, mjmode, mjver, pool, auth, state, badsig, prov, sjmode, remote, joinAuth, roomID] =>
     let v := strBytes ver
     if v == b!"org.matrix.msc4014" || mjver == "org.matrix.msc4014" then some "skip:pseudo-id version" else
